@@ -152,11 +152,16 @@ func (s *c09Sched) doOp(w *c09Worker, op string) (res string) {
 	case "resolve":
 		_, err = s.ctx.ResolveAndCompile(filepath.Join(s.dir, "prog.py"), py.CompileOpts{})
 	case "resolve-fault":
-		// injected fault: sys.path is not a list, so the path lookup inside ResolveAndCompile panics in Go
-		// (recovered by the deferred function above; what matters is that the context stays closable)
+		// injected fault: sys.path is an object whose iteration fails - with a Python error for one worker, with a
+		// Go panic for the other - so ResolveAndCompile is left between admission and release
+		// (the panic is recovered by the deferred function above; what matters is that the context stays closable)
 		sys := s.ctx.Store().MustGetModule("sys")
 		old := sys.Globals["path"]
-		sys.Globals["path"] = py.Tuple{py.String(s.dir)}
+		if w.id%2 == 0 {
+			sys.Globals["path"] = py.Int(5)
+		} else {
+			sys.Globals["path"] = &c09BadSeq{}
+		}
 		defer func() { sys.Globals["path"] = old }()
 		_, err = s.ctx.ResolveAndCompile("prog.py", py.CompileOpts{UseSysPaths: true})
 	case "modinit-fault":
@@ -204,6 +209,18 @@ func init() {
 			}
 		},
 	})
+}
+
+// c09BadSeq is a Python object whose iteration panics in Go
+type c09BadSeq struct{}
+
+var c09BadSeqType = py.NewType("VerifBadSeq", "iteration panics")
+
+func (*c09BadSeq) Type() *py.Type { return c09BadSeqType }
+func (*c09BadSeq) M__iter__() (py.Object, error) {
+	var m map[string]int
+	m["injected fault"] = 1
+	return nil, nil
 }
 
 // ---------------------------------------------------------------- one controlled run
